@@ -111,8 +111,10 @@ def run(model, rep, tier):
            qual='StarSet.diffgenerate')
     # ---- index rebuild
     tmpl = 'for _N_si, _N_star in enumerate(self.stars):\n    for _N_xi in _N_star:\n        self.index[_N_xi] = _N_si\n        self.indexdict[self.states[_N_xi]] = (_N_xi, _N_si)'
+    body2 = '    for _N_xi in self.stars[_N_si]:\n        self.index[_N_xi] = _N_si\n        self.indexdict[self.states[_N_xi]] = (_N_xi, _N_si)'
+    alts = [tmpl, 'for _N_si in range(0, len(self.stars)):\n' + body2, 'for _N_si in range(len(self.stars)):\n' + body2]
     for m in ('generate', 'diffgenerate'):
-        ok = pattern.has(ci.methods[m], tmpl)
+        ok = any(pattern.has(ci.methods[m], t) for t in alts)
         rep.ob('index-rebuild', mod, ci.methods[m], 'StarSet.%s: index[xi] = si ; indexdict[states[xi]] = (xi, si) for every star' % m, ok,
                '' if ok else 'index lookups are not rebuilt from the stars', engine='flow', qual='StarSet.' + m)
     ok = pattern.has(ia, 'for _N_xi in self.stars[_N_si]:\n    self.index[_N_xi] = _N_si\n    self.indexdict[self.states[_N_xi]] = (_N_xi, _N_si)')
@@ -159,10 +161,16 @@ def _alpha(block):
             if isinstance(n.ctx, ast.Store) and n.id not in order:
                 order[n.id] = 'v%d' % len(order)
 
+    import re
+
     class Ren(ast.NodeTransformer):
         def visit_Name(self, n):
             if n.id in order:
                 n.id = order[n.id]
+            else:
+                # a free name of the block that is a local of an inlined helper (suffix __<k> given by the inliner) is compared
+                # up to that suffix: the copies were inlined from one helper
+                n.id = re.sub(r'__\d+$', '', n.id)
             return n
 
     for s_ in stmts:
